@@ -1,5 +1,5 @@
 From Coq Require Import ZArith Lia Bool.
-From ZK Require Import Model.Field Model.Zq Model.QBls Model.Amount Proofs.FieldFacts Proofs.IdsProofs.
+From ZK Require Import Model.Field Model.Zq Model.QBls Model.Amount Model.Range Proofs.FieldFacts Proofs.IdsProofs Proofs.RangeProofs.
 Open Scope Z_scope.
 
 Ltac unfold_ranges := unfold is_u64, is_i64, i64_min, i64_max, u64_max in *.
@@ -135,3 +135,43 @@ Theorem amount_encoding_injective_on_i64 a a' : is_i64 a -> is_i64 a' -> amount_
 Proof. intros Ha Ha' E. rewrite !(amount_scalar_spec Fq) in E.
   apply scalar_encoding_injective_within_q; [|exact E]. unfold is_i64, i64_min, i64_max in *.
   assert (Q : 2 ^ 64 < q_bls) by (apply Z.ltb_lt; reflexivity). lia. Qed.
+
+(** ** from the field equations of an accepted payment to integer arithmetic (BLS12-381 scalar field).
+    What special soundness extracts (C02) is: the new balance is [horner] of nine digit messages, and equals the old balance
+    minus / plus the encoded amount IN THE FIELD.  If the digit messages are genuine digits (each in [0,128): what the range
+    key's signatures attest) and the old balance and the amount are in their machine ranges, the same holds over the integers:
+    no wrap-around modulo q can hide an overdraft. *)
+Theorem digits_give_integer_in_range ds : length ds = 9%nat -> Forall (fun d => (0 <= d < 128)%Z) ds ->
+  horner Fq (map (@of_Z Fq) ds) = of_Z (zweighted ds) /\ (0 <= zweighted ds <= i64_max)%Z.
+Proof. intros Hl Hd. split; [apply (horner_of_Z Fq)|]. unfold i64_max. now apply digit_sum_bound. Qed.
+
+Theorem customer_balance_update_is_integer_update (ob a v : Z) :
+  (0 <= ob <= i64_max)%Z -> is_i64 a -> (0 <= v <= i64_max)%Z ->
+  @of_Z Fq v = fsub (balance_scalar (K:=Fq) ob) (amount_scalar a) -> v = (ob - a)%Z.
+Proof. intros Ho Ha Hv E. rewrite (encoding_homomorphic_customer Fq) in E. unfold balance_scalar in E.
+  apply scalar_encoding_injective_within_q; [|exact E]. unfold is_i64, i64_min, i64_max in *.
+  assert (Q : 2 ^ 66 < q_bls) by (apply Z.ltb_lt; reflexivity). lia. Qed.
+
+Theorem merchant_balance_update_is_integer_update (ob a v : Z) :
+  (0 <= ob <= i64_max)%Z -> is_i64 a -> (0 <= v <= i64_max)%Z ->
+  @of_Z Fq v = fadd (balance_scalar (K:=Fq) ob) (amount_scalar a) -> v = (ob + a)%Z.
+Proof. intros Ho Ha Hv E. rewrite (encoding_homomorphic_merchant Fq) in E. unfold balance_scalar in E.
+  apply scalar_encoding_injective_within_q; [|exact E]. unfold is_i64, i64_min, i64_max in *.
+  assert (Q : 2 ^ 66 < q_bls) by (apply Z.ltb_lt; reflexivity). lia. Qed.
+
+(** hence: an accepted payment whose extracted digits are genuine moves exactly [a] from one integer balance to the other,
+    both results stay in [0, 2^63-1], and the amount cannot exceed what the payer had *)
+Corollary accepted_payment_moves_exactly_the_amount (ocb omb a : Z) dsc dsm :
+  (0 <= ocb <= i64_max)%Z -> (0 <= omb <= i64_max)%Z -> is_i64 a ->
+  length dsc = 9%nat -> Forall (fun d => (0 <= d < 128)%Z) dsc ->
+  length dsm = 9%nat -> Forall (fun d => (0 <= d < 128)%Z) dsm ->
+  horner Fq (map (@of_Z Fq) dsc) = fsub (balance_scalar (K:=Fq) ocb) (amount_scalar a) ->
+  horner Fq (map (@of_Z Fq) dsm) = fadd (balance_scalar (K:=Fq) omb) (amount_scalar a) ->
+  zweighted dsc = (ocb - a)%Z /\ zweighted dsm = (omb + a)%Z /\
+  (0 <= ocb - a <= i64_max)%Z /\ (0 <= omb + a <= i64_max)%Z /\ (zweighted dsc + zweighted dsm = ocb + omb)%Z.
+Proof. intros Hc Hm Ha L1 F1 L2 F2 E1 E2.
+  destruct (digits_give_integer_in_range dsc L1 F1) as [H1 R1]. destruct (digits_give_integer_in_range dsm L2 F2) as [H2 R2].
+  rewrite H1 in E1. rewrite H2 in E2.
+  pose proof (customer_balance_update_is_integer_update ocb a _ Hc Ha R1 E1) as I1.
+  pose proof (merchant_balance_update_is_integer_update omb a _ Hm Ha R2 E2) as I2.
+  rewrite I1, I2 in *. repeat split; lia. Qed.
